@@ -2,6 +2,7 @@ SPECIFICATION TraceSpec
 CONSTANTS
   Defect_PruneAfterFailedIngest = FALSE
   Defect_PruneFlagSkipsLatestCheck = FALSE
+  Defect_LogIdFromTopicUnchecked = FALSE
 INVARIANTS
   C01_OnlyAuthenticStored
   C01_InvalidNeverCompleted
